@@ -583,7 +583,7 @@ Proof.
   intros Hn Hs Hc. pose proof (build_map_keys l Hn) as Hk. unfold build_reader.
   destruct (build_map l) as [|e0 m0] eqn:Em.
   - cbn [map] in Hk. rewrite <- Hk in Hs. destruct Hs.
-  - rewrite Hk.
+  - pose proof (map_shape_spec l Hn) as Hms. rewrite Em in Hms. rewrite Hms. rewrite Hk.
     destruct (find (fun s0 => negb (existsb (name_eqb s0) cols)) (map fst l)) as [s'|] eqn:Ef.
     + apply find_some in Ef. destruct Ef as [Hin Hpred]. exists s'. split; [reflexivity|]. split; [assumption|].
       intros Hc'. apply cs_existsb_name in Hc'. rewrite Hc' in Hpred. discriminate.
